@@ -1,6 +1,6 @@
 (** C09 - Socket.IO encoding round-trips, matches the v5 format, leaves its input intact.
     This file holds statements only; every proof is `exact <lemma>`. *)
-From SioV Require Import Base.GoSem Sio.Json Sio.JsonProofs Sio.Header Sio.HeaderProofs Sio.Binary Sio.BinaryProofs Sio.Codec Sio.CodecProofs.
+From SioV Require Import Base.GoSem Sio.Json Sio.JsonProofs Sio.Header Sio.HeaderProofs Sio.Binary Sio.BinaryProofs Sio.Codec Sio.CodecProofs Sio.RoundtripProofs.
 
 (** Encode hands back the value it was given exactly as it was (every cell deconstruct overwrote
     with a placeholder is restored), for every JSON library, value tree of any depth, header and
@@ -61,3 +61,39 @@ Proof. exact protocol_examples. Qed.
 Theorem C09_json_int_roundtrip :
   forall z rest, okf rest -> pnum (pZ z ++ rest) = Some (z, rest).
 Proof. exact pnum_pZ. Qed.
+
+(** deconstruct, for value trees of any depth and any JSON library that reads back what it writes:
+    what the JSON encoder is shown afterwards is exactly the shape of the value with its binary
+    leaves replaced by placeholders numbered from [n] left to right ([extract], the protocol's
+    own description), the buffers are the leaves' bytes in that order, and the counter advanced by
+    their number.  Side conditions: the value is a tree without stale substitutions, maps are
+    written in key order, every Binary is within deconstructValue's two unwrapping steps. *)
+Theorem C09_deconstruct_numbering :
+  forall (marshal : jv -> bytes) (unmarshal : bytes -> option jv),
+  (forall j, unmarshal (marshal j) = Some j) ->
+  forall st v n m bs n',
+  cleanb v = true -> msorted v = true -> wokp false 2 v = true ->
+  dv marshal st v n = Ok (m, bs, n') ->
+  exists j, to_jv unmarshal (cur m) = Ok j /\ extract (shape v) n = (j, bs, n') /\
+            bs = leaves (shape v) /\ n' = (n + N.of_nat (length bs))%N.
+Proof. exact dv_spec. Qed.
+
+(** The frames Encode returns are exactly the ones the v5 protocol text prescribes for the packet
+    ([spec_frames]: type digit (binary variant iff there are attachments), count and dash,
+    namespace and comma unless "/", ack id, JSON with placeholders left to right, then the
+    attachments), for every header, value tree, attachment limit and JSON library with H1. *)
+Theorem C09_wire_is_v5 :
+  forall (marshal : jv -> bytes) (unmarshal : bytes -> option jv),
+  (forall j, unmarshal (marshal j) = Some j) ->
+  forall (max_att : Z) h x e,
+  wfv x = true -> pkt_ok h x = true -> h_nsp h <> [] ->
+  encode marshal unmarshal max_att h (Some x) = Ok e ->
+  e_frames e = spec_frames marshal (base_type (h_type h)) (h_nsp h) (h_id h) (Some (shape x)).
+Proof. exact wire_is_v5. Qed.
+
+Example C09_wire_side_conditions_satisfiable :
+  let x := VPtr (VSlice [VAny (VStr [101%N]);
+                         VAny (VPtr (VStruct [([110%N], VStr [120%N]); ([98%N], VBin [7%N])]));
+                         VAny (VMap [([97%N], VAny (VBin [9%N])); ([98%N], VAny (VSlice [VAny (VBin [1%N])]))])]) in
+  wfv x = true /\ pkt_ok (mkHeader 2 [47%N] None 0) x = true.
+Proof. vm_compute. auto. Qed.
